@@ -88,8 +88,30 @@ func targetName(fn *ssa.Function, pkgPath string) string {
 	return name
 }
 
+func (eng *Engine) scopedFuncs(fs *FrameSpec) []*ssa.Function {
+	all := eng.repoFuncs()
+	if len(fs.Within) == 0 {
+		return all
+	}
+	var out []*ssa.Function
+	for _, fn := range all {
+		pp := strings.TrimPrefix(fnPkgPath(fn), repoPrefix+"/")
+		for _, w := range fs.Within {
+			if pp == w || strings.HasPrefix(pp, w+"/") {
+				out = append(out, fn)
+				break
+			}
+		}
+	}
+	return out
+}
+
 func (eng *Engine) checkFrame(fs *FrameSpec) FrameResult {
-	res := FrameResult{Name: "frame/" + fs.Kind + "(" + fs.Sel + ")", Props: fs.Props, Pos: fs.Pos, Allowed: fs.Allowed}
+	name := "frame/" + fs.Kind + "(" + fs.Sel + ")"
+	if len(fs.Within) > 0 {
+		name += " within " + strings.Join(fs.Within, ",")
+	}
+	res := FrameResult{Name: name, Props: fs.Props, Pos: fs.Pos, Allowed: fs.Allowed}
 	actual := map[string]bool{}
 	switch fs.Kind {
 	case "writers", "readers":
@@ -101,7 +123,7 @@ func (eng *Engine) checkFrame(fs *FrameSpec) FrameResult {
 				res.Detail = "no such global " + fs.Sel + " (contract target changed)"
 				return res
 			}
-			for _, fn := range eng.repoFuncs() {
+			for _, fn := range eng.scopedFuncs(fs) {
 				if eng.touchesGlobal(fn, g, fs.Kind == "writers") {
 					actual[targetName(fn, fs.PkgPath)] = true
 				}
@@ -128,12 +150,28 @@ func (eng *Engine) checkFrame(fs *FrameSpec) FrameResult {
 			res.Detail = "no field " + fs.Sel + " (contract target changed)"
 			return res
 		}
-		for _, fn := range eng.repoFuncs() {
+		for _, fn := range eng.scopedFuncs(fs) {
 			if eng.touchesField(fn, st, fidx, fs.Kind == "writers") {
 				actual[targetName(fn, fs.PkgPath)] = true
 			}
 		}
 	case "callers":
+		if strings.HasPrefix(fs.Sel, "ext:") {
+			// callers of a function outside the repository, by full name (e.g. ext:os.ReadFile)
+			want := strings.TrimPrefix(fs.Sel, "ext:")
+			for _, fn := range eng.scopedFuncs(fs) {
+				for _, b := range fn.Blocks {
+					for _, in := range b.Instrs {
+						for _, op := range in.Operands(nil) {
+							if f, ok := (*op).(*ssa.Function); ok && f.String() == want {
+								actual[targetName(fn, fs.PkgPath)] = true
+							}
+						}
+					}
+				}
+			}
+			break
+		}
 		target := eng.resolveTarget(fs.PkgPath, fs.Sel)
 		if target == nil {
 			res.Detail = "no such function " + fs.Sel + " (contract target changed)"
